@@ -325,7 +325,7 @@ class Interp:
         if isinstance(v, (ACond,)):
             return None
         if isinstance(v, Opaque):
-            return None if v.kind in ("set", "list", "iter", "maybe-row", "dict") else True
+            return None if v.kind in ("set", "list", "iter", "maybe-row", "dict", "bool?") else True
         if isinstance(v, (RepList, Star)):
             return None
         if isinstance(v, (FuncVal, Builtin, TypeVal, ModVal, Callback, LambdaVal)):
